@@ -2414,6 +2414,7 @@ void run(Src &tapeSrc, Case &c)
     }
 
     std::vector<std::pair<std::string, std::string>> fails;
+    bool confirmedHangOfCall[2] = {false, false}; // [0] resolve, [1] flatten
     ChildResult last;
     const bool dry = getenv("VERIF_C07_DRY") != nullptr; // development aid: generate and classify only
     for (int attempt = 0; attempt < 8 && !dry; ++attempt) {
@@ -2436,6 +2437,11 @@ void run(Src &tapeSrc, Case &c)
             if (knownFindingIndex("C07", hangSig) >= 0) {
                 c.count("known_hang_class_not_reconfirmed");
                 fails.emplace_back(hangSig, std::string(kPhaseName[p]) + " did not return within 20 s (a hang of this class is a listed finding: not run again with 300 s)");
+            } else if (confirmedHangOfCall[p % 2]) {
+                // the same call (resolve / flatten) of this very scenario has been confirmed not to return in another state
+                // already: three confirmations of 300 s each would exceed the time limit of the case
+                c.count("hang_confirmed_once_per_scenario");
+                fails.emplace_back(hangSig, std::string(kPhaseName[p]) + " did not return within 20 s (the same call was confirmed with 300 s in another state of this scenario)");
             } else {
                 sc.limit[p] = 300;
                 ChildResult r2 = runChild(sc);
@@ -2446,6 +2452,7 @@ void run(Src &tapeSrc, Case &c)
                     break;
                 }
                 if (r2.lastPhase == p && r2.ret == 1000 + SIGALRM) {
+                    confirmedHangOfCall[p % 2] = true;
                     fails.emplace_back(hangSig, std::string(kPhaseName[p]) + " did not return within 20 s and, run again, not within 300 s");
                 } else {
                     r = r2;
